@@ -21,6 +21,8 @@ import (
 	"strings"
 	"time"
 
+	NoKV "github.com/feichai0017/NoKV"
+
 	"verif/lib/dbh"
 	"verif/lib/kvseq"
 	"verif/lib/seqmc"
@@ -56,6 +58,26 @@ func sizes(key string, ns ...int) []string {
 	return out
 }
 
+// hotRouted: two value-log buckets with hot/cold routing. The value-log hot ring is a pure
+// write counter (dedicated ring, no rotation, decay or sliding window, so nothing depends on
+// time): a key's first out-of-line write is cold (bucket 1), from its second write on it is
+// hot (bucket 0); a reopen starts the counters afresh. With equal value sizes the stale cold
+// record and the live hot record of a key sit at the SAME (fid, offset) in different buckets.
+func hotRouted(c dbh.Config) dbh.Config {
+	c.Buckets = 2
+	c.Tweak = func(o *NoKV.Options) {
+		o.HotRingEnabled = true
+		o.HotRingRotationInterval, o.HotRingDecayInterval, o.HotRingWindowSlots = 0, 0, 0
+		o.ValueLogHotBucketCount = 1
+		o.ValueLogHotKeyThreshold = 2
+		o.ValueLogHotRingOverride = true
+		o.ValueLogHotRingBits = 8
+		o.ValueLogHotRingRotationInterval, o.ValueLogHotRingDecayInterval, o.ValueLogHotRingWindowSlots = 0, 0, 0
+		o.ValueLogHotRingNodeCap = 0
+	}
+	return c
+}
+
 func seqConfigs(r *vr.Run) []config {
 	one := dbh.Config{Engine: "skiplist", Buckets: 1, VlogFileSize: vlogFileSize, ValueThreshold: threshold}
 	two := dbh.Config{Engine: "art", Buckets: 2, VlogFileSize: vlogFileSize, ValueThreshold: threshold}
@@ -64,8 +86,13 @@ func seqConfigs(r *vr.Run) []config {
 	allSizes := append(sizes("a", threshold-1, threshold, threshold+1, 3*threshold), "del:d:a", "set:d:ab:n32")
 	// GC-centred alphabet: out-of-line overwrites/deletes on two keys
 	gcCore := []string{"set:d:a:n32", "set:d:ab:n33", "del:d:a", "set:d:a:n31"}
+	// hot/cold bucket migration: equal sizes so record offsets coincide across buckets; three
+	// keys so the cold bucket can be filled and rotated by keys that are still cold
+	hot := hotRouted(one)
+	hotOps := []string{"set:d:a:n32", "set:d:ab:n32", "set:d:b:n32", "del:d:a"}
 	if r.Quick() {
 		return []config{
+			{"hot-bucket-migration", hot, hotOps[:3], 4, 2, 6, true, false, false, false},
 			{"sizes-1bucket", one, allSizes, 3, 2, 5, true, false, false, false},
 			{"gc-core-1bucket", one, gcCore, 3, 4, 7, true, false, false, false},
 			{"gc-core-2buckets-art", two, gcCore[:3], 3, 2, 5, true, true, false, false},
@@ -74,6 +101,7 @@ func seqConfigs(r *vr.Run) []config {
 		}
 	}
 	return []config{
+		{"hot-bucket-migration", hot, hotOps, 5, 4, 9, true, true, false, false},
 		{"sizes-1bucket", one, allSizes, 4, 3, 7, true, true, false, false},
 		{"sizes-2buckets-art", two, allSizes, 3, 3, 6, true, true, false, false},
 		{"gc-core-1bucket", one, gcCore, 5, 5, 10, true, true, false, false},
@@ -398,6 +426,7 @@ func replaySeq(r *vr.Run, cfgs []config, name string, path []string) {
 				break
 			}
 		}
+		fmt.Printf("replay: op counts %v\n", kvseq.OpCount)
 		r.Finish(vr.Coverage{Level: "model_checking", Evaluations: 1, Distinct: 2, States: 1, Transitions: int64(len(path)), Rule: "replay", Samples: []any{path}})
 	}
 	vr.Fatalf("unknown config %q", name)
